@@ -23,8 +23,8 @@ RULE = ("case = one sampler configuration (method, R, P, V, mask, assignment, sh
         "QMC cases additionally need V_handled>1 and R*P>1 to be able to expose scrambling (counted separately); distinct key = case index")
 ASSUMPTIONS = ["callers do not write into the array returned by generate_samples (ropt's own caller stopped doing so with /repo commit 08fcbdd)",
                "non-shared realizations 'differ' is only required when R>=2 and at least one handled variable (probability of an accidental tie is negligible for continuous draws)"]
-REQUIRED = {"quick": {"calls_checked": 3600, "qmc_vectors_matched": 8000, "qmc_multidim_cases": 296, "lhs_strata_checked": 300, "shared_checked": 600, "unhandled_zero_entries": 5000, "e2e_checked": 120, "e2e_identically_configured_samplers": 15, "samplers_with_explicit_options": 60, "__nontrivial__": 1142},
-            "thorough": {"calls_checked": 90000, "qmc_vectors_matched": 200000, "qmc_multidim_cases": 7227, "lhs_strata_checked": 8000, "shared_checked": 15000, "unhandled_zero_entries": 120000, "e2e_checked": 2400, "e2e_identically_configured_samplers": 300, "samplers_with_explicit_options": 1500, "__nontrivial__": 27891}}
+REQUIRED = {"quick": {"calls_checked": 3600, "qmc_vectors_matched": 8000, "qmc_multidim_cases": 296, "lhs_strata_checked": 300, "shared_checked": 600, "unhandled_zero_entries": 5000, "e2e_checked": 120, "calls_with_more_than_a_thousand_points": 20, "e2e_identically_configured_samplers": 15, "samplers_with_explicit_options": 60, "__nontrivial__": 1142},
+            "thorough": {"calls_checked": 90000, "qmc_vectors_matched": 200000, "qmc_multidim_cases": 7227, "lhs_strata_checked": 8000, "shared_checked": 15000, "unhandled_zero_entries": 120000, "e2e_checked": 2400, "calls_with_more_than_a_thousand_points": 500, "e2e_identically_configured_samplers": 300, "samplers_with_explicit_options": 1500, "__nontrivial__": 27891}}
 N = {"quick": 2000, "thorough": 50000}
 METHODS = ["norm", "uniform", "truncnorm", "sobol", "halton", "lhs", "default"]
 BOUNDED = {"uniform", "truncnorm", "sobol", "halton", "lhs"}
@@ -61,6 +61,12 @@ def run_case(case, obs):
     method = METHODS[int(rng.integers(len(METHODS)))]
     R, P, V = int(rng.integers(1, 7)), int(rng.integers(1, 9)), int(rng.integers(1, 7))
     shared = bool(rng.random() < 0.4)
+    if case["i"] % 50 == 7:
+        # a large ensemble: more than a thousand points in one call (one design / one stretch of the sequence all the same)
+        R, P, V = int(rng.integers(20, 41)), int(rng.integers(52, 65)), int(rng.integers(1, 4))
+        method = ["lhs", "sobol", "halton"][int(rng.integers(3))]
+        shared = False
+        obs.count("calls_with_more_than_a_thousand_points")
     mask = None
     if rng.random() < 0.5:
         mask = (rng.random(V) < 0.6).tolist()
